@@ -18,7 +18,7 @@ from litex.soc.integration import export
 from litex.soc.integration.common import get_mem_data
 from litex.soc.interconnect import wishbone
 from litex.soc.integration.soc import SoCError
-from litex.soc.interconnect.csr import CSRField, CSRStorage, CSRStatus, AutoCSR
+from litex.soc.interconnect.csr import CSRConstant, CSRField, CSRStorage, CSRStatus, AutoCSR
 from litex.soc.interconnect.csr_eventmanager import EventManager, EventSourcePulse
 from litex.soc.cores import cpu as cpu_mod
 
@@ -155,6 +155,12 @@ def build_soc(case, rng, specs, init_files):
     # extra RAMs of sizes that are not powers of two, each requested right behind the previous one's declared end, i.e. inside the
     # previous one's decoded (power-of-two) window: LiteX has to refuse that request (the harness then asks for the next free
     # aligned place). A region accepted there answers together with its neighbour, which the memory-region replay sees.
+    soc.declared_constants = {}
+    for k_ in range(rng.choice([0, 1, 3])):
+        # ... and by the designer (SoC.add_constant): numbers, strings, flags without value
+        cn, cv = "VERIF_CONST%d" % k_, rng.choice([None, 0, 42, rng.getrandbits(20), "text%d" % k_])
+        soc.add_constant(cn, cv)
+        soc.declared_constants[cn] = cv
     soc.main_ram_image = False
     soc.oversize = None
     if main_size and rng.random() < 0.4:
@@ -220,6 +226,11 @@ def build_soc(case, rng, specs, init_files):
                 p.triggers.append(src.trigger)
             p.ev.finalize()
             objs[sp["name"] + "_ev"] = ({"kind": "ev", "n": sp["ev"]["n"]}, p)
+        if rng.random() < 0.4:
+            # a constant published by the peripheral (CSRConstant) ...
+            kv = rng.choice([0, 1, 7, 255, rng.getrandbits(16), rng.getrandbits(31)])
+            p.kconst = CSRConstant(kv, name="k0")
+            soc.declared_constants[(sp["name"] + "_k0").upper()] = kv
         setattr(soc.submodules, sp["name"], p)
         if sp.get("csr_loc") is not None:
             try:
@@ -390,6 +401,23 @@ def run_soc(case):
         mm = re.search(r"#define %s_BASE 0x([0-9a-f]+)L\n#define %s_SIZE 0x([0-9a-f]+)" % (name.upper(), name.upper()), ex["mem_header"])
         if not mm or (int(mm.group(1), 16), int(mm.group(2), 16)) != (m["base"], m["size"]):
             errs.append({"kind": "json-memheader-disagree", "memory": name})
+    # constants declared by the designer / by peripherals: published with their value in every format
+    csv_const_all = {}
+    for line in ex["csv"].splitlines():
+        f = line.split(",")
+        if f[0] == "constant":
+            csv_const_all[f[1]] = f[2]
+    for cn, cv in sorted(getattr(soc, "declared_constants", {}).items()):
+        st["xfmt"] += 1
+        st["consts"] = st.get("consts", 0) + 1
+        j_ = js["constants"].get(cn.lower(), "<absent>")
+        c_ = csv_const_all.get(cn.lower(), "<absent>")
+        mm = re.search(r"^#define %s(?: (.*))?$" % re.escape(cn), ex["soc_header"], re.M)
+        h_ = "<absent>" if not mm else mm.group(1)
+        exp_h = None if cv is None else ('"%s"' % cv if isinstance(cv, str) else str(cv))
+        exp_c = "" if cv is None else str(cv)
+        if j_ != cv or h_ != exp_h or (c_ != exp_c and not (cv is None and c_ in ("None", ""))):
+            errs.append({"kind": "constant-published-with-another-value", "constant": cn, "declared": cv, "json": j_, "csv": c_, "soc_h": h_})
     # interrupt numbers: JSON constants, CSV constants and soc.h must agree; the allocator's table is what the wiring used
     irq_pub = {}
     if case.get("cpu"):
@@ -745,6 +773,7 @@ def run_shard(shard):
         col.ev("other_memories_checked_after_region_write", st.get("mem_others", 0))
         col.ev("ram_image_words_read_back", st.get("ram_image_words", 0))
         col.ev("oversize_images_offered", st.get("oversize", 0))
+        col.ev("declared_constants_compared", st.get("consts", 0))
         col.ev("extra_ram_requests_inside_a_neighbours_window_refused", r.get("xram_refusals", 0))
         col.ev("field_accessor_writes_replayed", st.get("field_writes", 0))
         col.ev("interrupts_raised_and_located", st.get("irqs", 0))
